@@ -24,7 +24,14 @@ for sid in ids:
             if a.returncode != 0:
                 out[chk] = "patch does not apply: " + a.stderr.strip()[:100]; continue
             env = dict(os.environ, PYTHONPATH=os.path.join(wt, "Lib"))
-            p = subprocess.run(["./check", chk, "--tier", "quick"], cwd=ROOT, env=env, capture_output=True, text=True, timeout=3000)
+            # the evidence file belongs to runs on the unchanged tree: keep it
+            evp = os.path.join(ROOT, "evidence", chk + ".json")
+            saved = open(evp).read() if os.path.exists(evp) else None
+            try:
+                p = subprocess.run(["./check", chk, "--tier", "quick"], cwd=ROOT, env=env, capture_output=True, text=True, timeout=3000)
+            finally:
+                if saved is not None:
+                    open(evp, "w").write(saved)
             v = [l for l in p.stdout.splitlines() if l.startswith("VIOLATION")]
             if p.returncode == 1 and v:
                 out[chk] = "VIOLATION, no-failing-input-found" if v[0].endswith("no-failing-input-found") else "VIOLATION with failing input"
